@@ -124,6 +124,15 @@ def run_task(source, contracts, loops, qualname, natives=None, timeout_ms=10000,
                 ev = SpecEval(ex, st, env)
                 for label, src in contract.requires.items():
                     assume_spec(ex, st, ev.ev(src), f"requires:{label}")
+            if contract is not None:
+                # the function's own read frame: every candle access in the body must stay inside it
+                for (ser_src, lo_src, hi_src, cond_src) in contract.reads:
+                    ev = SpecEval(ex, st, env)
+                    ser = ev.ev(ser_src)
+                    if isinstance(ser, vals.Ref) and isinstance(st.heap[ser.oid], SeriesP):
+                        lo, hi = vals.to_int_term(ev.ev(lo_src)), vals.to_int_term(ev.ev(hi_src))
+                        cond = vals.zbool(vals.truthy_term(ev.ev(cond_src), st.heap)) if cond_src else z3.BoolVal(True)
+                        st.heap[ser.oid].read_frame = (z3.If(cond, lo, z3.IntVal(0)), z3.If(cond, hi, z3.IntVal(-1)))
             if not ctx.feasible(st):
                 # a contradictory precondition would make every obligation vacuous
                 res.out_of_reach = "vacuous: precondition unsatisfiable"
